@@ -43,15 +43,16 @@ Definition fsqrtF (x : Z) : Z := trunc_float (PrimFloat.sqrt (float_of_Z x)).
 
 Definition pickF := pick fsqrtF.
 Definition doneF := done_info Z 0 fexprF.
-Definition info_of (code flags : Z) : doneinfo :=
-  mkinfo (if code =? -1 then None else Some code) (Z.testbit flags 0) (Z.testbit flags 1) (Z.testbit flags 2) (Z.testbit flags 3).
+Definition info_of (code flags : Z) (msg : nat) : doneinfo :=
+  mkinfo (if code =? -1 then None else Some code) (Z.testbit flags 0) (Z.testbit flags 1) (Z.testbit flags 2) (Z.testbit flags 3) msg.
 
 (* ---------- cases ---------- *)
 Inductive xop :=
 | XPick (draws : list Z)          (* values returned by the successive Intn calls *)
-| XDone (k : nat) (code : Z) (flags : Z)
+| XDone (k : nat) (code : Z) (flags : Z) (msg : nat)
     (* code -1: nil error, otherwise grpc status code (plain error = 2 Unknown); flags: the rest of the DoneInfo,
-       1 BytesSent, 2 BytesReceived, 4 Trailer present, 8 ServerLoad present *)
+       1 BytesSent, 2 BytesReceived, 4 Trailer present, 8 ServerLoad present; msg: which status message the error
+       carries (1 = "context deadline exceeded" as status.FromContextError makes it, 2 = "deadline", 3 = "", ...) *)
 | XAdv (dt : Z).
 
 Record xobs := mkobs {
@@ -121,13 +122,13 @@ Definition model_step (s : st) (d : list (list Z)) (xo : xop * xobs) : option (s
           then Some (s', d') else None
       | _ => None
       end
-  | XDone k code flags =>
+  | XDone k code flags msg =>
       match nth_error (tokens s) k with
       | Some tk =>
           match nth_error (conns s) (t_conn tk) with
           | Some c =>
               if (o_conn o =? Z.of_nat (t_conn tk)) && (o_td o =? td_of (now s) c) && w_hyp_ok (o_td o) (o_wbits o)
-              then match doneF s k (info_of code flags) (o_wbits o) with
+              then match doneF s k (info_of code flags msg) (o_wbits o) with
                    | Ok s' => if dump_ok s' d' o then Some (s', d') else None
                    | _ => None
                    end
@@ -149,7 +150,7 @@ Fixpoint model_steps (s : st) (d : list (list Z)) (steps : list (xop * xobs)) : 
 Definition errpicker_steps (steps : list (xop * xobs)) : bool :=
   forallb (fun so => match fst so with
                      | XPick _ => (o_err (snd so) =? 1) && (o_id (snd so) =? -1)
-                     | XDone _ _ _ => false
+                     | XDone _ _ _ _ => false
                      | XAdv _ => true
                      end) steps.
 
@@ -296,8 +297,9 @@ Definition spec_step (n : nat) (order : list nat) (t : sst) (xo : xop * xobs) : 
             if dump_clauses n t' dump then Some t' else None
         end
       else None
-  | XDone k code _ =>
-      (* whatever BytesSent / BytesReceived / Trailer / ServerLoad say: only the status decides the target *)
+  | XDone k code _ _ =>
+      (* whatever BytesSent / BytesReceived / Trailer / ServerLoad and the status message say: only the status
+         CODE decides the target *)
       match nth_error (s_tok t) k with
       | None => None
       | Some (i, start) =>
@@ -396,7 +398,7 @@ Definition cspec_ok (c : ccase) : bool :=
 Inductive mop :=
 | MBuild (ready : list nat) (order : list nat)   (* Build(ReadySCs = ready); observed p.conns order *)
 | MPick (p : nat) (draws : list Z)
-| MDone (p k : nat) (code flags : Z)
+| MDone (p k : nat) (code flags : Z) (msg : nat)
 | MAdv (dt : Z).
 
 Record mcase := mkmcase { m_start : Z; m_steps : list (mop * xobs) }.
@@ -441,8 +443,8 @@ Fixpoint mmodel_steps (w : list (option st)) (t : Z) (gd : list (list Z)) (steps
           let gd' := apply_delta gd (o_conns o) in
           let w' := map (option_map (fun s => advance s dt)) w in
           list_eqb Zlist_eqb (gdump w') gd' && (o_now o =? t + dt) && mmodel_steps w' (t + dt) gd' r
-      | MPick p _ | MDone p _ _ _ =>
-          let x := match m with MPick _ d => XPick d | MDone _ k c f => XDone k c f | _ => XAdv 0 end in
+      | MPick p _ | MDone p _ _ _ _ =>
+          let x := match m with MPick _ d => XPick d | MDone _ k c f g => XDone k c f g | _ => XAdv 0 end in
           let gd' := apply_delta gd (o_conns o) in
           let off := sizes_off sizes p in
           match nth_error w p with
@@ -506,8 +508,8 @@ Fixpoint mspec_steps (ps : list mpk) (t : Z) (gd : list (list Z)) (steps : list 
       | MAdv dt =>
           is_nil (o_conns o) &&
           match all_adv dt o ps with Some ps' => mspec_steps ps' (t + dt) gd r | None => false end
-      | MPick p _ | MDone p _ _ _ =>
-          let x := match m with MPick _ d => XPick d | MDone _ k c f => XDone k c f | _ => XAdv 0 end in
+      | MPick p _ | MDone p _ _ _ _ =>
+          let x := match m with MPick _ d => XPick d | MDone _ k c f g => XDone k c f g | _ => XAdv 0 end in
           match nth_error ps p with
           | Some k =>
               let off := sizes_off sizes p in
